@@ -1,8 +1,9 @@
 (* C13 -- a pulling client's copy always matches the user's current access: the property theorems.
    Nothing but statements; the proofs are in RevocationProofs.v, GrantSysProofs.v, FeedProofs.v, ClientProofs.v. *)
 From SG Require Import Base.Prelude C20.SeqIdGen C20.SeqId
-  C13.Revocation C13.Feed C13.Client C13.GrantSys C13.Sys
-  C13.RevocationProofs C13.GrantSysProofs C13.FeedProofs C13.FeedComplete C13.ClientProofs.
+  C13.Revocation C13.Feed C13.Client C13.DocHist C13.GrantSys C13.Sys
+  C13.RevocationProofs C13.GrantSysProofs C13.FeedProofs C13.FeedComplete C13.ClientProofs
+  C13.PeriodsProofs C13.MergeSorted C13.SysDocs C13.SysGrants C13.Hyps C13.HypsB C13.SysInv C13.SysRel C13.SysSnap C13.EndToEnd.
 Open Scope N_scope.
 
 (* ---- grant history: on invalidate + rebuild every lost grant is appended with [granted_at, invalidation_seq) ---- *)
@@ -158,16 +159,124 @@ Theorem C13_client_apply_idempotent :
 Proof. intros c rows; split; [intros d; apply client_apply_idempotent | apply client_apply_idempotent_eq]. Qed.
 Print Assumptions C13_client_apply_idempotent.
 
+(* ---- granted periods ----
+   for every history of the grant state machine (any number of roles, role deletion and re-creation, overlapping
+   sources, loss and re-grant): a channel the user could access at sequence t -- effective at a loaded state g1, with a
+   stamp at or below t -- is, at every later loaded state, covered by a period CollectionChannelGrantedPeriods (as
+   repaired by /repo 7044a86: deleted roles included) returns for it: start <= t < end.  Premises: everything later
+   happened above t, no history entry was merged away, no rebuild re-stamped a kept grant with a later sequence (the
+   finding stale-doc/restamped-grant-loses-period: C13_Refuted.v).  "Exactly" is false: the function over-approximates
+   (granted_periods_over_approximate in C13_Refuted.v). *)
+Theorem C13_granted_periods_cover :
+  forall (g1 : gstate) (ops : list gop) (c a t : N),
+    let g2 := run g1 ops in
+    loaded g1 -> uniq_roles g1 -> uniq (p_set (g_uroles g1)) ->
+    tget c (effective g1) = Some a -> a <= t -> t < max64 ->
+    Forall (op_above t) ops -> unpruned g1 ops -> no_restamp g1 ops ->
+    loaded g2 ->
+    exists p, In p (granted_periods (view_user g2) (view_roles g2) c) /\ fst p <= t /\ t < snd p.
+Proof. exact granted_periods_cover. Qed.
+Print Assumptions C13_granted_periods_cover.
+
+(* the quantitative form of C13_revoked_complete: the revocation sequence reported for a lost channel lies above t *)
+Theorem C13_revoked_complete_above :
+  forall (g1 : gstate) (ops : list gop) (c t since low trig : N),
+    let g2 := run g1 ops in
+    loaded g1 -> tmem c (effective g1) = true ->
+    check_seq since low trig <= t ->
+    Forall (op_above t) ops -> unpruned g1 ops ->
+    loaded g2 -> pos_seqs g2 -> hists_last_max g2 -> tmem c (effective g2) = false ->
+    exists at_, In (c, at_) (revoked_channels (view_user g2) (view_roles g2) since low trig) /\ t < at_.
+Proof. exact revoked_complete_above. Qed.
+Print Assumptions C13_revoked_complete_above.
+
+(* ---- the merge ---- *)
+(* over ascending channel logs the un-limited response is strictly ascending w.r.t. SequenceID.Before: one row per token *)
+Theorem C13_response_ascending :
+  forall (snap : snapshot) (since : seqid), logs_asc snap -> ssorted (pull snap since 0).
+Proof. intros snap since H. apply pull_sorted, feeds_sorted, H. Qed.
+Print Assumptions C13_response_ascending.
+
+(* ---- the whole system (Sys.v: documents, admin and sync-function grants, roles, pulls) ---- *)
+(* the invariant of the whole-system model holds initially and is preserved by every operation (names in scope, no
+   history entry merged away) *)
+Theorem C13_system_invariant :
+  wf sys_init /\ forall (y : sys) (o : sop), wf y -> step_ok y o -> wf (sys_step y o).
+Proof. split; [exact wf_init | exact wf_step]. Qed.
+Print Assumptions C13_system_invariant.
+
+(* on every well-formed loaded state the feeds of ANY request are consistent (rows with the same token describe the same
+   document revision): the hypothesis of C13_pull_complete / C13_grant_backfills / C13_revocation_delivers, which the
+   correspondence only checked snapshot by snapshot, holds for all reachable states *)
+Theorem C13_feeds_consistent :
+  forall (y : sys) (since : seqid), wf y -> loaded (y_g y) -> feeds_consistent_b (feeds (snapshot_of y) since) = true.
+Proof. intros y since Hw Hl. exact (feeds_consistent_sys y Hw Hl since). Qed.
+Print Assumptions C13_feeds_consistent.
+
+(* the channels the feed iterates over are the channels the specification grants *)
+Theorem C13_effective_is_truth :
+  forall (y : sys) (c : N), wf y -> loaded (y_g y) -> (tmem c (effective (y_g y)) = true <-> In c (truth_chans y)).
+Proof. intros y c Hw Hl. exact (effective_truth y Hw Hl c). Qed.
+Print Assumptions C13_effective_is_truth.
+
+(* one un-limited pull: y0 the (loaded) state at the previous pull, y the loaded state now, related by any list of
+   operations (rel), the position at or below y0's cached sequence, the client holding exactly what was visible at y0:
+   afterwards it holds exactly what is visible at y, with the current revisions -- provided no channel held at y0 (and
+   holding a document then) is back-filled now *)
+Theorem C13_pull_correct :
+  forall (y0 y : sys), wf y0 -> loaded (y_g y0) -> wf y -> loaded (y_g y) -> rel y0 y ->
+  forall (since : seqid), pos_ok since (cached y0) ->
+    (forall c a, In (c, a) (effective (y_g y)) -> tmem c (effective (y_g y0)) = true ->
+                 (exists d x0, doc_get d (y_docs y0) = Some x0 /\ In c (sd_active x0)) -> a <= cached y0) ->
+    y_next y < max64 ->
+  forall (cl : client), (forall d, c_get d cl = vis_rev y0 d) ->
+  forall d, c_get d (apply_rows cl (pull (snapshot_of y) since 0)) = vis_rev y d.
+Proof. exact pull_correct. Qed.
+Print Assumptions C13_pull_correct.
+
+(* the executable checker of the hypotheses is sound *)
+Theorem C13_hyps_checker_sound :
+  forall (unl stale restamp refill : bool) (ops : list sop),
+    history_hyps_b unl stale restamp refill ops = true -> history_hyps_sel unl stale restamp refill ops.
+Proof. exact history_hyps_b_ok. Qed.
+Print Assumptions C13_hyps_checker_sound.
+
 (* ---- the end-to-end statement ----
    "after every request that caught up the client's documents are exactly the documents whose current revision the
-   user can see", over all histories of the whole-system model Sys.v (documents, admin grants to the user and to
-   roles, role deletion / re-creation, pulls with limits).  It is NOT a theorem: the faithful model of the unchanged
-   code refutes it (C13_Refuted.v: C13_client_matches_visible_refuted, two independent witnesses, both reproduced on
-   the real database).  PARTIAL: what is proved instead are the request-level clauses above (back-fill, revocation
-   delivery, no revocation for a visible document, nothing lost or invented by the merge), the grant-history theorems
-   and the client theorems; the composition over several requests -- where the two defects live -- is checked on the
-   real database by the monitor client_matches_visible. *)
+   user can see", over all histories of the whole-system model Sys.v (documents, admin and sync-function grants to the
+   user and to roles, role deletion / re-creation, pulls with limits).  As it stands it is NOT a theorem: the faithful
+   model of the unchanged code refutes it (C13_Refuted.v). *)
 Definition C13_client_matches_visible_full_statement : Prop := client_matches_visible_full_statement.
+
+(* PARTIAL, proved by induction over the history (invariant: the client holds exactly the documents visible at the
+   previous pull's state, with their current revisions; the position is at or below that state's cached sequence):
+   for EVERY history whose pulls are un-limited (2), in which no channel accessible at a pull is back-filled at the next
+   one (1: lost and re-granted in between, or its earliest source lost while another persists), no role is (re-)created
+   while a live document grants it a channel (4), and no rebuild re-stamps a kept grant with a later sequence (5) --
+   plus the modelling assumptions: channel 0 / grantee 0 not used as names, no history entry merged away, sequences
+   below 2^64 -- after every pull the client's documents are exactly the visible ones.  Each of (1) (2) (4) (5) is the
+   shape of one recorded finding and is needed: C13_partial_needs_* in C13_Refuted.v. *)
+Theorem C13_client_matches_visible_partial :
+  forall (ops : list sop),
+    history_hyps ops ->
+    forall o, In o (trace ops) -> o_caught o = true -> same_docs (o_client o) (o_visible o) = true.
+Proof. exact client_matches_visible_partial. Qed.
+Print Assumptions C13_client_matches_visible_partial.
+
+(* non-vacuity of the end-to-end theorem: a history with admin and sync-function grants, a role revocation, a role
+   deletion, revocation rows, a back-fill and an all-removed row satisfies the hypotheses *)
+Example C13_nonvacuous_end_to_end :
+  let ops := [SRChans 1 [2]; SURoles [1]; SPut 1 [2] [] []; SPut 2 [3] [(0, [3])] []; SPull 0;
+              SURoles []; SPut 2 [3] [] []; SPut 3 [4] [(0, [4])] []; SPull 0;
+              SUChans [2]; SDelRole 1; SPut 3 [] [] []; SPull 0] in
+  history_hyps ops
+  /\ map (fun o => (map (fun r => (w_trig r, w_seq r, w_doc r, w_revoked r, w_allremoved r)) (o_rows o), o_client o, o_visible o)) (trace ops)
+     = [ ([(0, 3, 0, false, false); (0, 4, 1, false, false); (0, 5, 2, false, false)], [(1, 1); (2, 2)], [1; 2]);
+         ([(6, 4, 1, true, false); (0, 6, 0, false, false); (7, 7, 2, true, false); (0, 8, 3, false, false)], [(3, 4)], [3]);
+         ([(9, 4, 1, false, false); (9, 11, 3, true, true); (0, 9, 0, false, false)], [(1, 1)], [1]) ].
+Proof.
+  cbv zeta. split; [apply history_hyps_all, history_hyps_b_ok; vm_compute; reflexivity | vm_compute; reflexivity].
+Qed.
 
 (* ---- non-vacuity: a concrete loaded state in which a channel held through a role and directly is lost ---- *)
 Example C13_nonvacuous :
